@@ -409,4 +409,6 @@ def run(ctx):
     rule_R2(ctx)
     rule_R3(ctx)
     rule_R5(ctx)
+    from . import _narrow as N
+    N.narrowing_preserved(ctx, ctx.program, "R2", ("huginn_net_http",))
     rule_R4(ctx)
